@@ -5,6 +5,7 @@ import (
 	"go/constant"
 	"go/token"
 	"go/types"
+	"golang.org/x/tools/go/ssa"
 	"sort"
 	"strings"
 
@@ -400,6 +401,10 @@ func c01r2(c *core.Ctx) {
 			nAssign++
 			for _, m := range assignMs {
 				cs := caseStrings(m)
+				if !cs[r.tok] && r.tok == "=" && onlyCalledByHandlersOf(p, m, assignMs, "=", caseStrings) {
+					// a helper for the compound operators only: the plain assignment never reaches it
+					continue
+				}
 				c.Check(cs[r.tok], "compiler."+m.Name()+"|assign-case:"+r.tok, p.Pos(r.pos), sprintf("assignment operator %q is handled by %s", r.tok, m.Name()))
 			}
 		}
@@ -746,4 +751,56 @@ func caseConsts(pk *packages.Package, fd *ast.FuncDecl) map[string]bool {
 		return true
 	})
 	return out
+}
+
+// onlyCalledByHandlersOf: every static caller of m is one of ms and itself
+// mentions the operator tok (it decides about tok before it hands on).
+func onlyCalledByHandlersOf(p *core.Program, m *types.Func, ms []*types.Func, tok string, caseStrings func(*types.Func) map[string]bool) bool {
+	target := p.SSAFunc(m)
+	if target == nil {
+		return false
+	}
+	callers := 0
+	for _, x := range ms {
+		if x == m {
+			continue
+		}
+		sf := p.SSAFunc(x)
+		if sf == nil {
+			continue
+		}
+		for _, b := range sf.Blocks {
+			for _, in := range b.Instrs {
+				if ci, ok := in.(ssa.CallInstruction); ok && ci.Common().StaticCallee() == target {
+					if !caseStrings(x)[tok] {
+						return false
+					}
+					callers++
+				}
+			}
+		}
+	}
+	if callers == 0 {
+		return false
+	}
+	// no caller outside ms
+	for _, fn := range repoFns(p, "compiler") {
+		isM := false
+		for _, x := range ms {
+			if p.SSAFunc(x) == fn {
+				isM = true
+			}
+		}
+		if isM {
+			continue
+		}
+		for _, b := range fn.Blocks {
+			for _, in := range b.Instrs {
+				if ci, ok := in.(ssa.CallInstruction); ok && ci.Common().StaticCallee() == target {
+					return false
+				}
+			}
+		}
+	}
+	return true
 }
